@@ -19,11 +19,17 @@ ASSUMPTIONS = [
     "modelled, not flagged: a `&str` field whose wire form needs decoding must fail (path, JSON: documented "
     "runtime error) or may fail (query, form: docs only imply it); `Some(\"\")` is not generated for the flat "
     "encodings; extra parameters/pairs/members and interleaved sequence members may be rejected (only counted)",
+    "128-bit integers: asserted for path and JSON (0, u64::MAX+1, u128::MAX, i128::MIN/MAX, i64::MIN-1, random); "
+    "query/form reject them on the pinned tree ('i128 is not supported' from serde_html_form) - counted, not flagged",
+    "content types: JsonBody must accept application/json and application/*+json (with parameters) and must answer "
+    "ContentTypeMismatch for text/json, text/x.custom+json, image/svg+json, model/gltf+json, application/jsonx, "
+    "application/x-json-stream...; upper/mixed-case spellings and `application/x-www-form-urlencoded+json` are "
+    "executed on every run but only counted (rustdoc silent); every spelling of the tables is a fixed input",
     "error variants required: path InvalidUtf8InPathParameter / PathDeserializationError, query "
     "QueryDeserializationError, json+form MissingContentType / ContentTypeMismatch / DeserializationError",
 ]
 
-RULE = ("33 struct shapes (1-4 named fields of u8..u64/i8..i64/f64/bool/char/String/&str/Cow<str>, Option and Vec for "
+RULE = ("35 struct shapes (1-4 named fields of u8..u128/i8..i128/f64/bool/char/String/&str/Cow<str>, Option and Vec for "
         "query/form/JSON, nested structs for JSON, renamed hostile keys) x 4 sources; values drawn from a hostile pool "
         "(reserved characters, '%', '+', '%2541', multi-byte and astral unicode, controls, empty, extreme numbers); "
         "wire order / template order permuted against declaration order; ~40% of the cases are malformed "
